@@ -1,3 +1,18 @@
-import NetaddrVerif.Model.IPSet
+/-
+Props/C07.lean — property C07 "IPSet algebra and queries agree with plain set theory on
+addresses".  Property theorems only; lemmas in Lemmas/IPSetL1..L5.
+-/
+import NetaddrVerif.Lemmas.IPSetL5
 namespace NV.C07
+open NV NV.IPSet
+
+/-- membership: `ip in ipset` (address or network, host bits allowed) is True exactly when
+    every address of the argument is denoted by the set -/
+theorem contains_iff (s : St) (hs : Inv s) (n : Net) (hn : n.WF) :
+    contains s n = true ↔ ∀ a, n.first ≤ a → a ≤ n.last → denS s n.ver a :=
+  IPSet.contains_iff s hs n hn
+
+example : contains [⟨4, 0x0a000000, 24⟩] ⟨4, 0x0a000005, 32⟩ = true := by decide +kernel
+example : contains [⟨4, 0x0a000000, 24⟩] ⟨4, 0x0a000005, 23⟩ = false := by decide +kernel
+
 end NV.C07
